@@ -73,7 +73,7 @@ func emit(c *vh.Ctx, o *outcome, synced map[string]bool, debug bool) {
 	}
 	nontrivial := o.unoff || completed
 	ckey := fmt.Sprintf("%s/%s/%s/%s", o.sc.kind, o.sc.variant, name, o.val)
-	c.Case(o.sc.kind+"-"+o.sc.variant, fmt.Sprintf("(CRun %s %s %s %s)", vt, wt, fl, hs.ObsTerm(r)), ckey, nontrivial,
+	c.Case(o.sc.kind+"-"+o.sc.variant, fmt.Sprintf("(CRun %s %s %s %s %s %s)", vh.Bool(hs.TreeFixed()), vt, r.KeyShape, wt, fl, hs.ObsTerm(r)), ckey, nontrivial,
 		map[string]any{"parrot": name, "kind": o.sc.kind, "variant": o.sc.variant, "forced": o.val, "completed": completed,
 			"client_error": errStr(r.ClientErr), "alert": hs.ClientAlert(r)})
 	if debug {
